@@ -22,6 +22,13 @@ func VerifAverages() {
 	tickers := []fat2.PTicker{fat2.PTickerUSD, fat2.PTickerXBT}
 	xbtFrom := 1 + vrt.Choose("xbtFrom", H) // the second asset appears later in the chain
 	rated := make([]bool, H+2)
+	// the chain either starts at height 1 or straddles the PIP-10 activation (the third block of
+	// the chain is the activation block), so that era tests inside the routine are crossed by a
+	// daemon that lives through them
+	base := 0
+	if vrt.Param("bases", 2) == 2 && vrt.Choose("base", 2) == 1 {
+		base = int(specPIP10) - 3
+	}
 	// ---- the chain's rate table (committed, as after syncing H blocks)
 	for h := 1; h <= H; h++ {
 		rated[h] = vrt.Choose("rated", 2) == 1
@@ -33,7 +40,7 @@ func VerifAverages() {
 				continue
 			}
 			v := vrt.URange("rate", 1, 1<<40)
-			if _, err := db.Exec("INSERT INTO pn_rate (height, token, value) VALUES ($1, $2, $3)", h, t.String(), v); err != nil {
+			if _, err := db.Exec("INSERT INTO pn_rate (height, token, value) VALUES ($1, $2, $3)", base+h, t.String(), v); err != nil {
 				panic(err)
 			}
 		}
@@ -45,7 +52,7 @@ func VerifAverages() {
 			continue // the holding pass (and with it the averages) runs only on rated blocks
 		}
 		// what ApplyTransactionBatchesInHolding does at block c
-		_, last, err := d.Pegnet.SelectMostRecentRatesBeforeHeight(ctx, db, uint32(c))
+		_, last, err := d.Pegnet.SelectMostRecentRatesBeforeHeight(ctx, db, uint32(base+c))
 		if err != nil {
 			panic(err)
 		}
@@ -60,6 +67,8 @@ func VerifAverages() {
 			vrt.ObserveU64(fmt.Sprintf("A%d_%s", c, t.String()), avgA[t])
 			vrt.ObserveU64(fmt.Sprintf("B%d_%s", c, t.String()), avgB[t])
 			vrt.Assert("C09.averages-independent-of-restart", avgA[t] == avgB[t])
+			// the same fact read as C01: two processes replaying one chain (one restarted) price alike
+			vrt.Assert("C01.conversion-pricing-independent-of-process-history", avgA[t] == avgB[t])
 		}
 	}
 	if nRated >= 3 {
